@@ -104,7 +104,7 @@ func main() {
 	child.Register("cases", runCases)
 	child.Main()
 	r := ev.Start("C03", "exploration")
-	r.SetRule("executions of real rings (memory in all tiers; AOF and SQLite for a third of the cases, <= 8 nodes) with 2-4 single-writer clients issuing Put(unique value)/Delete/PrefixAppend/PrefixRemove/Get/PrefixContains/PrefixList through random entry nodes (re-picked on every retry) while 1-3 goroutines join and leave nodes; seeded delays at the chord hook points; distinct+non-trivial = hash of the interleaving of membership hook events across nodes, for executions with at least one completed join/leave and one acknowledged write")
+	r.SetRule("executions of real rings (memory in all tiers; AOF and SQLite for a third of the cases, <= 8 nodes) with 2-4 single-writer clients issuing Put(unique value)/Delete/PrefixAppend/PrefixRemove/Get/PrefixContains/PrefixList through random entry nodes (re-picked on every retry) while 1-3 goroutines join and leave nodes; seeded delays at the chord hook points; distinct+non-trivial = hash of the interleaving of membership hook events across nodes, for executions with at least one completed join/leave and one acknowledged write; a fifth of the executions store 220-520 write-once ballast keys before the churn and read each back after quiescence")
 	r.Assume("each key has a single sequential writer, so the model of acknowledged state is deterministic; an operation is retried until acknowledged")
 	r.Assume("whether a key holding no data is still listed by a raw store is not judged")
 	rng := r.Rand("cases")
@@ -136,6 +136,9 @@ func main() {
 			if c.Initial > 4 {
 				c.Initial = 4
 			}
+		}
+		if i%5 == 4 && !c.RealRPC {
+			c.Ballast = 220 + (i*53)%300 // acknowledged once before the churn, every hand-over moves hundreds of keys
 		}
 		if r.WantCase(c.Name) {
 			cases = append(cases, c)
